@@ -29,21 +29,21 @@ Definition pg_calls (pg : nat -> xstmt -> nat -> nat -> NetModel.N (list nat)) (
     | b :: r => pg ctx b t1 sync ;;~ calls r
     end.
 
-Fixpoint pg_stmt (ctx : nat) (s : xstmt) (t1 t2 : nat) {struct s} : NetModel.N (list nat) :=
+Fixpoint pg_stmt (il : bool) (ctx : nat) (s : xstmt) (t1 t2 : nat) {struct s} : NetModel.N (list nat) :=
   match s with
-  | XService n at_ ins => generate_service n ins at_ ctx t1 t2 false
+  | XService n at_ ins => generate_service n ins at_ ctx t1 t2 il
   | XCall t at_ ins body =>
     u <~ fresh_uuid ;;
     a <~ new_api {| a_is_task := true; a_name := t; a_site := at_; a_uuid := u; a_ctx := Some ctx;
-                    a_in_loop := false; a_params := ins; a_src := ins; a_has_call := true |} ;;
+                    a_in_loop := il; a_params := ins; a_src := ins; a_has_call := true |} ;;
     add_callback t1 (CbTS a) ;;~
-    ex <~ pg_block_go pg_stmt a (List.length body) t2 0 body t1 [] ;;
+    ex <~ pg_block_go (pg_stmt il) a (List.length body) t2 0 body t1 [] ;;
     nfor ex (fun e => add_callback e (CbTF a)) ;;~
     nret ex
   | XParallel bs =>
     sync <~ create_transition ;;
     pfin <~ create_place ;;
-    pg_calls pg_stmt ctx t1 sync bs ;;~
+    pg_calls (pg_stmt il) ctx t1 sync bs ;;~
     add_output pfin sync ;;~
     add_input pfin t2 ;;~
     nret [sync]
@@ -60,7 +60,7 @@ Fixpoint pg_stmt (ctx : nat) (s : xstmt) (t1 t2 : nat) {struct s} : NetModel.N (
     cfin <~ create_place ;;
     sp <~ create_transition ;;
     add_output cfin sp ;;~
-    pg_block_go pg_stmt ctx (List.length P) sp 0 P fp [] ;;~
+    pg_block_go (pg_stmt il) ctx (List.length P) sp 0 P fp [] ;;~
     add_output expr_p t1 ;;~
     add_input cfin t2 ;;~
     add_callback t1 (CbCond e passed failed ctx) ;;~
@@ -68,15 +68,35 @@ Fixpoint pg_stmt (ctx : nat) (s : xstmt) (t1 t2 : nat) {struct s} : NetModel.N (
     | [] => add_output cfin ff ;;~ nret [sp; ff]
     | _ :: _ =>
       sf <~ create_transition ;;
-      pg_block_go pg_stmt ctx (List.length F) sf 0 F ff [] ;;~
+      pg_block_go (pg_stmt il) ctx (List.length F) sf 0 F ff [] ;;~
       add_output cfin sf ;;~
       nret [sp; sf]
     end
+  | XWhile e B =>
+    loop_p <~ create_place ;;
+    then_p <~ create_place ;;
+    else_p <~ create_place ;;
+    cp <~ create_transition ;;
+    cf <~ create_transition ;;
+    it <~ create_transition ;;
+    add_input loop_p cp ;;~
+    add_input then_p cp ;;~
+    add_input loop_p cf ;;~
+    add_input else_p cf ;;~
+    add_output loop_p it ;;~
+    ldone <~ create_place ;;
+    pg_block_go (pg_stmt true) ctx (List.length B) it 0 B cp [] ;;~
+    add_output loop_p t1 ;;~
+    add_input ldone t2 ;;~
+    add_callback t1 (CbWhile e then_p else_p ctx) ;;~
+    add_callback it (CbWhile e then_p else_p ctx) ;;~
+    add_output ldone cf ;;~
+    nret [cf]
   | _ => nfail Unsupported
   end.
 
-Definition pg_block (ctx : nat) (body : list xstmt) (first last : nat) : NetModel.N (list nat) :=
-  pg_block_go pg_stmt ctx (List.length body) last 0 body first [].
+Definition pg_block (il : bool) (ctx : nat) (body : list xstmt) (first last : nat) : NetModel.N (list nat) :=
+  pg_block_go (pg_stmt il) ctx (List.length body) last 0 body first [].
 
 (* ---- the primitive operations as state transformers ---- *)
 Definition op_place (s : NS) : NS := s <| ns_places := ns_places s ++ [Some 0] |>.
@@ -275,14 +295,14 @@ Ltac gstep :=
 Definition pos_of (s : NS) : pos :=
   mkpos (List.length (ns_places s)) (List.length (ns_trans s)) (List.length (ns_apis s)).
 
-Lemma generate_service_eq : forall n ins at_ ctx t1 t2 s,
+Lemma generate_service_eq : forall il n ins at_ ctx t1 t2 s,
     let p := pos_of s in
-    generate_service n ins at_ ctx t1 t2 false s
+    generate_service n ins at_ ctx t1 t2 il s
     = Ok ([pt p],
           op_in (pp p + 2) t2 (op_out (pp p) t1 (op_out (pp p + 2) (pt p) (op_in (pp p + 1) (pt p) (op_in (pp p) (pt p)
             (op_cb (pt p) (CbSF (pa p)) (op_cb t1 (CbSS (pa p))
               (op_trans (op_place (op_dict (IUuid (ns_fresh s)) (pp p + 1) (op_place (op_place
-                 (op_api (svc_api n at_ ins ctx (ns_fresh s)) s))))))))))))).
+                 (op_api (svc_api il n at_ ins ctx (ns_fresh s)) s))))))))))))).
 Proof.
   intros. unfold generate_service.
   rewrite nbind_fresh, nbind_new_api.
@@ -327,15 +347,15 @@ Ltac eqb_cases :=
          | |- context [Nat.ltb ?a ?b] => destruct (Nat.ltb_spec a b); try lia
          end.
 
-Lemma gen_service : forall n ins at_ ctx t1 t2 s,
+Lemma gen_service : forall il n ins at_ ctx t1 t2 s,
     okns s -> t1 < List.length (ns_trans s) -> t2 < List.length (ns_trans s) ->
     let p := pos_of s in
-    exists s', generate_service n ins at_ ctx t1 t2 false s = Ok (exits (XService n at_ ins) p, s') /\
+    exists s', generate_service n ins at_ ctx t1 t2 il s = Ok (exits (XService n at_ ins) p, s') /\
                Gen s s' t1 t2 [pp p] [CbSS (pa p)] [pp p + 2] /\
                pos_of s' = adv (XService n at_ ins) p /\ okns s' /\
                wired s' (XService n at_ ins) p ctx [].
 Proof.
-  intros n ins at_ ctx t1 t2 s [Hcb Hfr] H1 H2 p. rewrite generate_service_eq. fold p.
+  intros il n ins at_ ctx t1 t2 s [Hcb Hfr] H1 H2 p. rewrite generate_service_eq. fold p.
   eexists. split; [reflexivity|].
   assert (Hp : pt p = List.length (ns_trans s)) by reflexivity.
   assert (Hpp : pp p = List.length (ns_places s)) by reflexivity.
@@ -358,11 +378,11 @@ Proof.
   - split; autorewrite with netops; [lia|]. rewrite app_length. cbn. lia.
   - cbn [wired]. autorewrite with netops. rewrite Hcb, Hp.
     rewrite (preN_beyond s), (postN_beyond s), (cbsN_beyond s) by lia.
-    repeat split.
+    split; [|split; [|split; [|split]]].
     + eqb_cases; cbn [andb app]; reflexivity.
     + eqb_cases; cbn [andb app]; reflexivity.
     + eqb_cases; cbn [andb app]; reflexivity.
-    + rewrite Hpa, nth_error_app2, Nat.sub_diag by lia. rewrite <- Hfr. reflexivity.
+    + exists il. rewrite Hpa, nth_error_app2, Nat.sub_diag by lia. rewrite <- Hfr. reflexivity.
     + rewrite Hpa, <- Hfr. cbn [dict_get ident_eqb]. rewrite Nat.eqb_refl. reflexivity.
 Qed.
 
@@ -499,10 +519,10 @@ Qed.
 
 (* ---- the statement proved by induction over the unfolded tree ---- *)
 Definition GenOK (s : xstmt) : Prop :=
-  frag s = true -> forall ctx t1 t2 ns,
+  frag s = true -> forall il ctx t1 t2 ns,
     okns ns -> t1 < List.length (ns_trans ns) -> t2 < List.length (ns_trans ns) ->
     let p := pos_of ns in
-    exists ns', pg_stmt ctx s t1 t2 ns = Ok (exits s p, ns') /\
+    exists ns', pg_stmt il ctx s t1 t2 ns = Ok (exits s p, ns') /\
                 Gen ns ns' t1 t2 (entries s p) (startcbs s p ctx) [xplace s p] /\
                 pos_of ns' = adv s p /\ okns ns' /\ wired ns' s p ctx [].
 
@@ -518,22 +538,22 @@ Lemma pos_eta : forall p, mkpos (pp p) (pt p) (pa p) = p.
 Proof. intros []; reflexivity. Qed.
 
 Lemma gen_calls : forall l, Forall GenOK l -> frag_brs l = true ->
-    forall ctx t1 sync ns,
+    forall il ctx t1 sync ns,
       okns ns -> t1 < List.length (ns_trans ns) -> sync < List.length (ns_trans ns) ->
       let q := pos_of ns in
-      exists ns', pg_calls pg_stmt ctx t1 sync l ns = Ok (tt, ns') /\
+      exists ns', pg_calls (pg_stmt il) ctx t1 sync l ns = Ok (tt, ns') /\
                   Gen ns ns' t1 sync (cat_of entries l q) (cat_of (fun b q => startcbs b q ctx) l q) (cat_of (fun b q => [xplace b q]) l q) /\
                   pos_of ns' = adv_l l q /\ okns ns' /\ wired_list (wired ns') ctx l q.
 Proof.
-  induction l as [|b r IH]; intros HF Hf ctx t1 sync ns Hok H1 H2 q.
+  induction l as [|b r IH]; intros HF Hf il ctx t1 sync ns Hok H1 H2 q.
   - exists ns. split; [reflexivity|]. split; [|split; [|split; [exact Hok|exact I]]].
     + unfold Gen. eapply GenF_ext; [apply GenF_refl|]. intros j _. cbn [cat_of]. unfold fnil.
       destruct (Nat.eqb j sync), (Nat.eqb j t1); auto.
     + unfold adv_l, nplaces_l, ntrans_l, napis_l. cbn [map list_sum fold_right]. rewrite !Nat.add_0_r. symmetry. apply pos_eta.
   - inversion HF as [|? ? Hb Hr]; subst. apply frag_brs_cons in Hf. destruct Hf as (_ & Hfb & Hfr).
-    destruct (Hb Hfb ctx t1 sync ns Hok H1 H2) as (ns1 & E1 & G1 & P1 & Ok1 & W1). fold q in E1, G1, P1, W1.
+    destruct (Hb Hfb il ctx t1 sync ns Hok H1 H2) as (ns1 & E1 & G1 & P1 & Ok1 & W1). fold q in E1, G1, P1, W1.
     assert (L1 : List.length (ns_trans ns) <= List.length (ns_trans ns1)) by (apply (gn_ntr _ _ _ _ _ G1)).
-    destruct (IH Hr Hfr ctx t1 sync ns1 Ok1 ltac:(lia) ltac:(lia)) as (ns2 & E2 & G2 & P2 & Ok2 & W2).
+    destruct (IH Hr Hfr il ctx t1 sync ns1 Ok1 ltac:(lia) ltac:(lia)) as (ns2 & E2 & G2 & P2 & Ok2 & W2).
     rewrite ?P1 in G2, P2, W2.
     exists ns2. split; [|split; [|split; [|split; [exact Ok2|]]]].
     + cbn [pg_calls]. unfold nbind. rewrite E1. exact E2.
@@ -557,15 +577,15 @@ Lemma pos_op_trans : forall s, pos_of (op_trans s) = conn_skip (pos_of s).
 Proof. intro s. unfold pos_of, conn_skip. autorewrite with netops. reflexivity. Qed.
 
 Lemma gen_block_go : forall l, Forall GenOK l -> frag_block l = true ->
-    forall n i prev acc ctx last ns,
+    forall il n i prev acc ctx last ns,
       i + List.length l = n -> okns ns ->
       prev < List.length (ns_trans ns) -> last < List.length (ns_trans ns) ->
       let p := pos_of ns in
-      exists ns', pg_block_go pg_stmt ctx n last i l prev acc ns = Ok (exits_b l p, ns') /\
+      exists ns', pg_block_go (pg_stmt il) ctx n last i l prev acc ns = Ok (exits_b l p, ns') /\
                   Gen ns ns' prev last (entries_b l p) (startcbs_b l p ctx) [xplace_b l p] /\
                   pos_of ns' = adv_b l p /\ okns ns' /\ wired_block (wired ns') ns' ctx [] l p.
 Proof.
-  induction l as [|s r IH]; intros HF Hf n i prev acc ctx last ns Hn Hok H1 H2 p; [discriminate|].
+  induction l as [|s r IH]; intros HF Hf il n i prev acc ctx last ns Hn Hok H1 H2 p; [discriminate|].
   inversion HF as [|? ? Hs Hr]; subst. apply frag_block_cons in Hf. destruct Hf as [Hfs Hfr].
   destruct r as [|s' r].
   - (* last statement: wired to [last] *)
@@ -574,7 +594,7 @@ Proof.
                    = nret last).
     { replace (i + 1 - 1) with i by lia. rewrite Nat.ltb_irrefl. destruct (Nat.ltb 1 (i + 1)); reflexivity. }
     rewrite Ecur. unfold nbind at 1. unfold nret at 1.
-    destruct (Hs Hfs ctx prev last ns Hok H1 H2) as (ns1 & E1 & G1 & P1 & Ok1 & W1). fold p in E1, G1, P1, W1.
+    destruct (Hs Hfs il ctx prev last ns Hok H1 H2) as (ns1 & E1 & G1 & P1 & Ok1 & W1). fold p in E1, G1, P1, W1.
     exists ns1. split; [|split; [|split; [|split; [exact Ok1|]]]].
     + unfold nbind. rewrite E1. reflexivity.
     + exact G1.
@@ -591,11 +611,11 @@ Proof.
     assert (Hc0 : cur = List.length (ns_trans ns)) by reflexivity.
     pose proof (okns_op_trans ns Hok) as Ok0.
     assert (L0 : List.length (ns_trans (op_trans ns)) = S cur) by (autorewrite with netops; reflexivity).
-    destruct (Hs Hfs ctx prev cur (op_trans ns) Ok0 ltac:(lia) ltac:(lia)) as (ns1 & E1 & G1 & P1 & Ok1 & W1).
+    destruct (Hs Hfs il ctx prev cur (op_trans ns) Ok0 ltac:(lia) ltac:(lia)) as (ns1 & E1 & G1 & P1 & Ok1 & W1).
     rewrite pos_op_trans in E1, G1, P1, W1. fold p in E1, G1, P1, W1.
     set (ps := conn_skip p) in *.
     assert (L1 : S cur <= List.length (ns_trans ns1)) by (rewrite <- L0; apply (gn_ntr _ _ _ _ _ G1)).
-    destruct (IH Hr Hfr (i + S (S (List.length r))) (S i) cur (exits s ps) ctx last ns1 ltac:(cbn [List.length]; lia) Ok1 ltac:(lia) ltac:(lia))
+    destruct (IH Hr Hfr il (i + S (S (List.length r))) (S i) cur (exits s ps) ctx last ns1 ltac:(cbn [List.length]; lia) Ok1 ltac:(lia) ltac:(lia))
       as (ns2 & E2 & G2 & P2 & Ok2 & W2).
     rewrite ?P1 in E2, G2, P2, W2. set (pr := adv s ps) in *.
     exists ns2. split; [|split; [|split; [|split; [exact Ok2|]]]].
@@ -708,6 +728,7 @@ Proof.
   - apply frag_call in H. destruct H as [_ H]. apply (exits_nodup_block body IH H).
   - constructor; [intros []|constructor].
   - destruct F; (constructor; [intros [E|[]]; fold (ntrans_b P) in E; lia|constructor; [intros []|constructor]]).
+  - constructor; [intros []|constructor].
 Qed.
 
 Lemma exits_nodup_b : forall l, frag_block l = true -> forall p, NoDup (exits_b l p).
@@ -743,21 +764,21 @@ Qed.
 
 Lemma gen_call : forall t at_ ins body, Forall GenOK body -> GenOK (XCall t at_ ins body).
 Proof.
-  intros t at_ ins body HF Hf ctx t1 t2 ns Hok H1 H2 p.
+  intros t at_ ins body HF Hf il ctx t1 t2 ns Hok H1 H2 p.
   apply frag_call in Hf. destruct Hf as [_ Hfb].
   destruct Hok as [Hcb Hfr].
   cbn [pg_stmt]. rewrite nbind_fresh, nbind_new_api.
   rewrite (nbind_ok _ _ _ _ _ _ _ (add_callback_eq _ _ _)).
   set (a := List.length (ns_apis ns)).
   set (A := {| a_is_task := true; a_name := t; a_site := at_; a_uuid := IUuid (ns_fresh ns); a_ctx := Some ctx;
-               a_in_loop := false; a_params := ins; a_src := ins; a_has_call := true |}).
+               a_in_loop := il; a_params := ins; a_src := ins; a_has_call := true |}).
   set (ns1 := op_cb t1 (CbTS a) (op_api A ns)).
   assert (Ok1 : okns ns1).
   { unfold ns1. split; autorewrite with netops; [exact Hcb|]. rewrite app_length. cbn [List.length]. lia. }
   assert (P1 : pos_of ns1 = body_pos p).
   { unfold ns1, pos_of, body_pos, p, pos_of. autorewrite with netops. rewrite app_length. cbn [List.length pp pt pa]. f_equal. lia. }
   assert (Lt1 : List.length (ns_trans ns1) = List.length (ns_trans ns)) by (unfold ns1; autorewrite with netops; reflexivity).
-  destruct (gen_block_go body HF Hfb (List.length body) 0 t1 [] a t2 ns1 eq_refl Ok1 ltac:(lia) ltac:(lia))
+  destruct (gen_block_go body HF Hfb il (List.length body) 0 t1 [] a t2 ns1 eq_refl Ok1 ltac:(lia) ltac:(lia))
     as (ns2 & E2 & G2 & P2 & Ok2 & W2).
   rewrite P1 in E2, G2, P2, W2. set (bp := body_pos p) in *.
   pose proof (exits_range_b body Hfb bp) as [_ Hex].
@@ -786,7 +807,7 @@ Proof.
   - destruct (op_cbs_facts es (CbTF a) ns2 Hnd Hlt) as (_ & A' & _ & _ & T' & C' & F' & _).
     destruct Ok2 as [Hcb2 Hfr2]. split; [rewrite C', T'; exact Hcb2|rewrite F', A'; exact Hfr2].
   - cbn [wired]. split.
-    + destruct (op_cbs_facts es (CbTF a) ns2 Hnd Hlt) as (_ & A' & _). rewrite A'.
+    + exists il. destruct (op_cbs_facts es (CbTF a) ns2 Hnd Hlt) as (_ & A' & _). rewrite A'.
       rewrite (gn_apis _ _ _ _ _ G2) by (unfold ns1; autorewrite with netops; rewrite app_length; cbn [List.length]; unfold p, pos_of; cbn [pa]; lia).
       unfold ns1. autorewrite with netops. unfold p, pos_of. cbn [pa].
       rewrite nth_error_app2, Nat.sub_diag by lia. unfold A. rewrite Hfr. reflexivity.
@@ -797,7 +818,7 @@ Qed.
 
 Lemma gen_par : forall bs, Forall GenOK bs -> GenOK (XParallel bs).
 Proof.
-  intros bs HF Hf ctx t1 t2 ns Hok H1 H2 p.
+  intros bs HF Hf il ctx t1 t2 ns Hok H1 H2 p.
   apply frag_par in Hf. destruct Hf as [_ Hfb].
   cbn [pg_stmt]. rewrite (nbind_ok _ _ _ _ _ _ _ (create_transition_eq _)).
   rewrite (nbind_ok _ _ _ _ _ _ _ (create_place_eq _)).
@@ -811,7 +832,7 @@ Proof.
   assert (P1 : pos_of ns1 = par_pos p).
   { unfold ns1, pos_of, par_pos, p, pos_of. autorewrite with netops. rewrite app_length. cbn [List.length pp pt pa]. f_equal. lia. }
   assert (Lt1 : List.length (ns_trans ns1) = S sync) by (unfold ns1; autorewrite with netops; reflexivity).
-  destruct (gen_calls bs HF Hfb ctx t1 sync ns1 Ok1 ltac:(lia) ltac:(lia)) as (ns2 & E2 & G2 & P2 & Ok2 & W2).
+  destruct (gen_calls bs HF Hfb il ctx t1 sync ns1 Ok1 ltac:(lia) ltac:(lia)) as (ns2 & E2 & G2 & P2 & Ok2 & W2).
   rewrite P1 in G2, P2, W2. set (q := par_pos p) in *.
   assert (Lt2 : List.length (ns_trans ns2) = pt q + ntrans_l bs).
   { pose proof (f_equal pt P2) as E. unfold pos_of, adv_l in E. cbn [pt] in E. exact E. }
@@ -859,7 +880,7 @@ Qed.
 
 Lemma gen_cond0 : forall e P, Forall GenOK P -> GenOK (XCond e P []).
 Proof.
-  intros e P HFP Hf ctx t1 t2 ns Hok H1 H2 p.
+  intros e P HFP Hf il ctx t1 t2 ns Hok H1 H2 p.
   apply frag_cond0 in Hf. rename Hf into HfP.
   pose proof Hok as [Hcb Hfr].
   cbn [pg_stmt].
@@ -880,7 +901,7 @@ Proof.
   assert (OkA : okns nsA).
   { unfold nsA. split; autorewrite with netops; [lia|exact Hfr]. }
   assert (LtA : List.length (ns_trans nsA) = pt0 + 3) by (pose proof (f_equal pt PA) as E; cbn [pos_of cond_p pt] in E; fold pt0 in E; exact E).
-  destruct (gen_block_go P HFP HfP (List.length P) 0 pt0 [] ctx (S (S pt0)) nsA eq_refl OkA ltac:(lia) ltac:(lia))
+  destruct (gen_block_go P HFP HfP il (List.length P) 0 pt0 [] ctx (S (S pt0)) nsA eq_refl OkA ltac:(lia) ltac:(lia))
     as (nsB & EB & GB & PB & OkB & WB).
   rewrite PA in EB, GB, PB, WB. set (cp := cond_p p) in *.
   unfold nbind at 1. rewrite EB.
@@ -1020,7 +1041,7 @@ Qed.
 Lemma gen_cond : forall e P F, Forall GenOK P -> Forall GenOK F -> GenOK (XCond e P F).
 Proof.
   intros e P F HFP HFF. destruct F as [|f0 fr]; [apply gen_cond0; exact HFP|].
-  intros Hf ctx t1 t2 ns Hok H1 H2 p.
+  intros Hf il ctx t1 t2 ns Hok H1 H2 p.
   apply frag_cond in Hf. destruct Hf as [HfP HfF].
   pose proof Hok as [Hcb Hfr].
   cbn [pg_stmt].
@@ -1041,7 +1062,7 @@ Proof.
   assert (OkA : okns nsA).
   { unfold nsA. split; autorewrite with netops; [lia|exact Hfr]. }
   assert (LtA : List.length (ns_trans nsA) = pt0 + 3) by (pose proof (f_equal pt PA) as E; cbn [pos_of cond_p pt] in E; fold pt0 in E; exact E).
-  destruct (gen_block_go P HFP HfP (List.length P) 0 pt0 [] ctx (S (S pt0)) nsA eq_refl OkA ltac:(lia) ltac:(lia))
+  destruct (gen_block_go P HFP HfP il (List.length P) 0 pt0 [] ctx (S (S pt0)) nsA eq_refl OkA ltac:(lia) ltac:(lia))
     as (nsB & EB & GB & PB & OkB & WB).
   rewrite PA in EB, GB, PB, WB. set (cp := cond_p p) in *.
   unfold nbind at 1. rewrite EB.
@@ -1062,7 +1083,7 @@ Proof.
   assert (OkD : okns nsD).
   { destruct OkB as [B1 B2]. unfold nsD, nsC. split; autorewrite with netops; [lia|exact B2]. }
   assert (LtD : List.length (ns_trans nsD) = S sf) by (unfold nsD; autorewrite with netops; rewrite LtC; reflexivity).
-  destruct (gen_block_go (f0 :: fr) HFF HfF (List.length (f0 :: fr)) 0 (S pt0) [] ctx sf nsD eq_refl OkD ltac:(lia) ltac:(lia))
+  destruct (gen_block_go (f0 :: fr) HFF HfF il (List.length (f0 :: fr)) 0 (S pt0) [] ctx sf nsD eq_refl OkD ltac:(lia) ltac:(lia))
     as (nsE & EE & GE & PE & OkE & WE).
   rewrite PD in EE, GE, PE, WE. set (cf := cond_f P p) in *.
   change (S (List.length fr)) with (List.length (f0 :: fr)).
@@ -1237,25 +1258,192 @@ Proof.
       * pose proof (f_equal pa PE) as E0. unfold pos_of, adv_b in E0. cbn [pa] in E0. lia.
 Qed.
 
+Lemma gen_while : forall e B, Forall GenOK B -> GenOK (XWhile e B).
+Proof.
+  intros e B HFB Hf il ctx t1 t2 ns Hok H1 H2 p.
+  apply frag_while in Hf. rename Hf into HfB.
+  pose proof Hok as [Hcb Hfr].
+  cbn [pg_stmt].
+  do 3 rewrite (nbind_ok _ _ _ _ _ _ _ (create_place_eq _)).
+  do 3 rewrite (nbind_ok _ _ _ _ _ _ _ (create_transition_eq _)).
+  do 4 rewrite (nbind_ok _ _ _ _ _ _ _ (add_input_eq _ _ _)).
+  rewrite (nbind_ok _ _ _ _ _ _ _ (add_output_eq _ _ _)).
+  rewrite (nbind_ok _ _ _ _ _ _ _ (create_place_eq _)).
+  autorewrite with netops. rewrite !app_length. cbn [List.length].
+  set (pp0 := List.length (ns_places ns)). set (pt0 := List.length (ns_trans ns)). set (pa0 := List.length (ns_apis ns)).
+  replace (pp0 + 1) with (S pp0) by lia. replace (S pp0 + 1) with (S (S pp0)) by lia.
+  replace (S (S pp0) + 1) with (S (S (S pp0))) by lia.
+  replace (pt0 + 1) with (S pt0) by lia. replace (S pt0 + 1) with (S (S pt0)) by lia.
+  set (nsA := op_place _).
+  assert (PA : pos_of nsA = cond_p p).
+  { unfold nsA, pos_of, cond_p, p, pos_of. autorewrite with netops. rewrite !app_length. cbn [List.length pp pt pa].
+    fold pp0 pt0 pa0. f_equal; lia. }
+  assert (OkA : okns nsA).
+  { unfold nsA. split; autorewrite with netops; [lia|exact Hfr]. }
+  assert (LtA : List.length (ns_trans nsA) = pt0 + 3) by (pose proof (f_equal pt PA) as E; cbn [pos_of cond_p pt] in E; fold pt0 in E; exact E).
+  destruct (gen_block_go B HFB HfB true (List.length B) 0 pt0 [] ctx (S (S pt0)) nsA eq_refl OkA ltac:(lia) ltac:(lia))
+    as (nsB & EB & GB & PB & OkB & WB).
+  rewrite PA in EB, GB, PB, WB. set (cp := cond_p p) in *.
+  unfold nbind at 1. rewrite EB.
+  rewrite (nbind_ok _ _ _ _ _ _ _ (add_output_eq _ _ _)).
+  rewrite (nbind_ok _ _ _ _ _ _ _ (add_input_eq _ _ _)).
+  rewrite (nbind_ok _ _ _ _ _ _ _ (add_callback_eq _ _ _)).
+  rewrite (nbind_ok _ _ _ _ _ _ _ (add_callback_eq _ _ _)).
+  rewrite (nbind_ok _ _ _ _ _ _ _ (add_output_eq _ _ _)). unfold nret.
+  set (CW := CbWhile e (S pp0) (S (S pp0)) ctx).
+  set (nsC := op_cb (S (S pt0)) CW (op_cb t1 CW (op_in (S (S (S pp0))) t2 (op_out pp0 t1 nsB)))).
+  set (nsF := op_out (S (S (S pp0))) (S pt0) nsC).
+  assert (LtB : List.length (ns_trans nsB) = pt0 + 3 + ntrans_b B).
+  { pose proof (f_equal pt PB) as E. unfold pos_of, adv_b, cp, cond_p in E. cbn [pt] in E. fold pt0 in E. exact E. }
+  assert (LtC : List.length (ns_trans nsC) = pt0 + 3 + ntrans_b B) by (unfold nsC; autorewrite with netops; exact LtB).
+  unfold Gen in GB.
+  assert (Rpre : forall j, j < pt0 + 3 ->
+             preN nsF j = preN nsA j ++ (if Nat.eqb j (S (S pt0)) then [xplace_b B cp] else [])
+                                     ++ (if Nat.eqb j t2 then [S (S (S pp0))] else [])).
+  { intros j Hj. unfold nsF, nsC. autorewrite with netops. rewrite (gn_pre _ _ _ _ _ GB j) by lia.
+    rewrite LtB. rewrite <- ?app_assoc. destruct (Nat.eqb_spec j t2); cbn [andb]; [rewrite (proj2 (Nat.ltb_lt t2 _)) by lia|]; reflexivity. }
+  assert (Rpost : forall j, j < pt0 + 3 ->
+             postN nsF j = postN nsA j ++ (if Nat.eqb j pt0 then entries_b B cp else [])
+                                       ++ (if Nat.eqb j t1 then [pp0] else [])
+                                       ++ (if Nat.eqb j (S pt0) then [S (S (S pp0))] else [])).
+  { intros j Hj. unfold nsF. autorewrite with netops. rewrite LtC.
+    unfold nsC. autorewrite with netops. rewrite (gn_post _ _ _ _ _ GB j) by lia.
+    rewrite LtB. rewrite <- !app_assoc. f_equal. f_equal.
+    destruct (Nat.eqb_spec j t1); destruct (Nat.eqb_spec j (S pt0)); cbn [andb]; rewrite ?(proj2 (Nat.ltb_lt _ _)) by lia; reflexivity. }
+  assert (Rcbs : forall j, j < pt0 + 3 ->
+             cbsN nsF j = cbsN nsA j ++ (if Nat.eqb j pt0 then startcbs_b B cp ctx else [])
+                                     ++ (if Nat.eqb j t1 then [CW] else [])
+                                     ++ (if Nat.eqb j (S (S pt0)) then [CW] else [])).
+  { intros j Hj. unfold nsF, nsC. autorewrite with netops. rewrite (gn_cbs _ _ _ _ _ GB j) by lia.
+    destruct OkB as [B1 _]. rewrite B1, LtB. rewrite <- !app_assoc. f_equal. f_equal.
+    destruct (Nat.eqb_spec j t1); destruct (Nat.eqb_spec j (S (S pt0))); cbn [andb]; rewrite ?(proj2 (Nat.ltb_lt _ _)) by lia; reflexivity. }
+  exists nsF. split.
+  { f_equal. f_equal. cbn [exits]. unfold p, pos_of. cbn [pt]. fold pt0. repeat (f_equal; try lia). }
+  split; [|split; [|split]].
+  - (* the frame *)
+    assert (Hx : xplace (XWhile e B) p = S (S (S pp0))) by (cbn [xplace]; unfold p, pos_of; cbn [pp]; fold pp0; lia).
+    assert (Hen : entries (XWhile e B) p = [pp0]) by reflexivity.
+    assert (Hsc : startcbs (XWhile e B) p ctx = [CW]).
+    { cbn [startcbs]. unfold p, pos_of, CW. cbn [pp]. fold pp0. replace (pp0 + 1) with (S pp0) by lia.
+      replace (pp0 + 2) with (S (S pp0)) by lia. reflexivity. }
+    rewrite Hx, Hen, Hsc.
+    unfold Gen. constructor.
+    + assert (LpA : List.length (ns_places nsA) = pp0 + 4).
+      { pose proof (f_equal pp PA) as E4. unfold pos_of, cond_p, p, pos_of in E4. cbn [pp] in E4. fold pp0 in E4. exact E4. }
+      assert (LpB : List.length (ns_places nsB) = pp0 + 4 + nplaces_l B).
+      { pose proof (f_equal pp PB) as E2. unfold pos_of, adv_b, cp, cond_p, p, pos_of in E2. cbn [pp] in E2. fold pp0 in E2. exact E2. }
+      assert (QA : ns_places nsA = ns_places ns ++ repeat (Some 0) 4).
+      { unfold nsA. autorewrite with netops. rewrite <- !app_assoc. reflexivity. }
+      assert (QB : ns_places nsB = ns_places nsA ++ repeat (Some 0) (nplaces_l B)).
+      { rewrite (gn_places _ _ _ _ _ GB) at 1. rewrite LpB, LpA. f_equal. f_equal. lia. }
+      assert (QF : ns_places nsF = ns_places nsB) by (unfold nsF, nsC; autorewrite with netops; reflexivity).
+      rewrite QF, LpB. fold pp0. rewrite QB, QA. rewrite <- !app_assoc, <- !repeat_app. f_equal. f_equal. lia.
+    + unfold nsF, nsC. autorewrite with netops. fold pt0. lia.
+    + pose proof (gn_napi _ _ _ _ _ GB) as A2.
+      unfold nsF, nsC. autorewrite with netops.
+      unfold nsA in A2. autorewrite with netops in A2. lia.
+    + intros j Hj. unfold nsF, nsC. autorewrite with netops.
+      rewrite (gn_apis _ _ _ _ _ GB) by (unfold nsA; autorewrite with netops; exact Hj).
+      unfold nsA. autorewrite with netops. reflexivity.
+    + intros j Hj. fold pt0 in Hj. rewrite (Rpre j) by lia.
+      assert (E1 : Nat.eqb j (S (S pt0)) = false) by (apply Nat.eqb_neq; lia). rewrite E1. cbn [app].
+      unfold nsA. autorewrite with netops. fold pt0.
+      assert (E2 : Nat.eqb j pt0 = false) by (apply Nat.eqb_neq; lia).
+      assert (E3 : Nat.eqb j (S pt0) = false) by (apply Nat.eqb_neq; lia).
+      rewrite ?E2, ?E3. cbn [andb]. rewrite ?app_nil_r. reflexivity.
+    + intros j Hj. fold pt0 in Hj. rewrite (Rpost j) by lia.
+      assert (E1 : Nat.eqb j (S (S pt0)) = false) by (apply Nat.eqb_neq; lia).
+      assert (E2 : Nat.eqb j pt0 = false) by (apply Nat.eqb_neq; lia).
+      assert (E3 : Nat.eqb j (S pt0) = false) by (apply Nat.eqb_neq; lia).
+      rewrite E2, E3. cbn [app]. rewrite app_nil_r.
+      unfold nsA. autorewrite with netops. fold pt0. rewrite ?E1. cbn [andb]. rewrite ?app_nil_r. reflexivity.
+    + intros j Hj. fold pt0 in Hj. rewrite (Rcbs j) by lia.
+      assert (E1 : Nat.eqb j (S (S pt0)) = false) by (apply Nat.eqb_neq; lia).
+      assert (E2 : Nat.eqb j pt0 = false) by (apply Nat.eqb_neq; lia).
+      rewrite E1, E2. cbn [app]. rewrite app_nil_r.
+      unfold nsA. autorewrite with netops. reflexivity.
+    + destruct (gn_dict _ _ _ _ _ GB) as (d1 & D1 & K1).
+      exists d1. unfold nsF, nsC. autorewrite with netops.
+      rewrite D1. unfold nsA at 1. autorewrite with netops. split; [reflexivity|].
+      eapply Forall_impl; [|exact K1]. intros kv (k & E0 & Hk). exists k. split; [exact E0|].
+      unfold nsA in Hk. autorewrite with netops in Hk. exact Hk.
+    + unfold nsF, nsC. autorewrite with netops.
+      rewrite (gn_rest _ _ _ _ _ GB). unfold nsA. autorewrite with netops. reflexivity.
+  - unfold nsF, nsC, pos_of. autorewrite with netops.
+    pose proof PB as E0. unfold pos_of in E0. rewrite E0. unfold adv_b, adv, cp, cond_p, p, pos_of. cbn [pp pt pa].
+    rewrite nplaces_while, ntrans_while, napis_while. f_equal; lia.
+  - destruct OkB as [E1 E2]. unfold nsF, nsC. split; autorewrite with netops; assumption.
+  - (* the wiring *)
+    assert (Hp : pt p = pt0 /\ pp p = pp0) by (split; reflexivity). destruct Hp as [Hpt Hpp].
+    cbn [wired]. rewrite Hpt, Hpp. fold cp.
+    replace (pt0 + 1) with (S pt0) by lia. replace (pt0 + 2) with (S (S pt0)) by lia.
+    replace (pp0 + 1) with (S pp0) by lia. replace (pp0 + 2) with (S (S pp0)) by lia. replace (pp0 + 3) with (S (S (S pp0))) by lia.
+    fold CW.
+    assert (Et1a : Nat.eqb pt0 t1 = false) by (apply Nat.eqb_neq; unfold pt0; lia).
+    assert (Et1b : Nat.eqb (S pt0) t1 = false) by (apply Nat.eqb_neq; unfold pt0; lia).
+    assert (Et1c : Nat.eqb (S (S pt0)) t1 = false) by (apply Nat.eqb_neq; unfold pt0; lia).
+    assert (Et2a : Nat.eqb pt0 t2 = false) by (apply Nat.eqb_neq; unfold pt0; lia).
+    assert (Et2b : Nat.eqb (S pt0) t2 = false) by (apply Nat.eqb_neq; unfold pt0; lia).
+    assert (Et2c : Nat.eqb (S (S pt0)) t2 = false) by (apply Nat.eqb_neq; unfold pt0; lia).
+    rewrite (Rpre pt0), (Rpost pt0), (Rcbs pt0), (Rpre (S pt0)), (Rpost (S pt0)), (Rcbs (S pt0)),
+            (Rpre (S (S pt0))), (Rpost (S (S pt0))), (Rcbs (S (S pt0))) by lia.
+    unfold nsA. autorewrite with netops. fold pt0.
+    rewrite (preN_beyond ns), (postN_beyond ns), (cbsN_beyond ns) by (unfold pt0 in *; lia).
+    rewrite (preN_beyond ns (S pt0)), (postN_beyond ns (S pt0)), (cbsN_beyond ns (S pt0)) by (unfold pt0 in *; lia).
+    rewrite (preN_beyond ns (S (S pt0))), (postN_beyond ns (S (S pt0))), (cbsN_beyond ns (S (S pt0))) by (unfold pt0 in *; lia).
+    rewrite ?Nat.eqb_refl, ?Et1a, ?Et1b, ?Et1c, ?Et2a, ?Et2b, ?Et2c.
+    replace (Nat.eqb pt0 (S pt0)) with false by (symmetry; apply Nat.eqb_neq; lia).
+    replace (Nat.eqb pt0 (S (S pt0))) with false by (symmetry; apply Nat.eqb_neq; lia).
+    replace (Nat.eqb (S pt0) pt0) with false by (symmetry; apply Nat.eqb_neq; lia).
+    replace (Nat.eqb (S pt0) (S (S pt0))) with false by (symmetry; apply Nat.eqb_neq; lia).
+    replace (Nat.eqb (S (S pt0)) pt0) with false by (symmetry; apply Nat.eqb_neq; lia).
+    replace (Nat.eqb (S (S pt0)) (S pt0)) with false by (symmetry; apply Nat.eqb_neq; lia).
+    cbn [andb app].
+    rewrite ?(proj2 (Nat.ltb_lt _ _)) by lia. cbn [app]. rewrite ?app_nil_r.
+    repeat (split; [reflexivity|]).
+    (* the body survives what follows *)
+    apply (wired_block_ext nsB nsF B HfB cp ctx []); [|exact WB].
+    assert (G : GenF nsB nsF (fun j => if Nat.eqb j t2 then [S (S (S pp0))] else [])
+                     (fun j => (if Nat.eqb j t1 then [pp0] else []) ++ (if Nat.eqb j (S pt0) then [S (S (S pp0))] else []))
+                     (fun j => (if Nat.eqb j t1 then [CW] else []) ++ (if Nat.eqb j (S (S pt0)) then [CW] else []))).
+    { eapply GenF_ext;
+        [eapply GenF_trans; [apply (GenF_op_out pp0 t1 nsB)|
+         eapply GenF_trans; [apply (GenF_op_in (S (S (S pp0))) t2)|
+         eapply GenF_trans; [apply (GenF_op_cb t1 CW); autorewrite with netops; apply OkB|
+         eapply GenF_trans; [apply (GenF_op_cb (S (S pt0)) CW); autorewrite with netops; apply OkB|
+         apply (GenF_op_out (S (S (S pp0))) (S pt0) nsC)]]]]|].
+      intros j Hj. cbn beta. unfold fnil. cbn [app]. rewrite ?app_nil_r. repeat split; reflexivity. }
+    eapply GenF_agree; [exact G| | |].
+    + intros j Hj. unfold cp, cond_p in Hj. cbn [pt] in Hj. rewrite Hpt in Hj.
+      assert (Q1 : Nat.eqb j t1 = false) by (apply Nat.eqb_neq; unfold pt0 in *; lia).
+      assert (Q2 : Nat.eqb j t2 = false) by (apply Nat.eqb_neq; unfold pt0 in *; lia).
+      assert (Q4 : Nat.eqb j (S pt0) = false) by (apply Nat.eqb_neq; lia).
+      assert (Q5 : Nat.eqb j (S (S pt0)) = false) by (apply Nat.eqb_neq; lia).
+      cbn beta. rewrite Q1, Q2, Q4, Q5. auto.
+    + unfold cp, cond_p. cbn [pt]. rewrite Hpt. lia.
+    + pose proof (f_equal pa PB) as E0. unfold pos_of, adv_b in E0. cbn [pa] in E0. lia.
+Qed.
+
 Theorem gen_ok : forall s, GenOK s.
 Proof.
   induction s as [n a i|t a i body IH|bs IH|e p f IHp IHf|e b IH|v l b IH|v l c IH] using xstmt_ind';
     try (intro Hf; discriminate Hf).
-  - intros Hf ctx t1 t2 ns Hok H1 H2 p. cbn [pg_stmt]. apply gen_service; assumption.
+  - intros Hf il ctx t1 t2 ns Hok H1 H2 p. cbn [pg_stmt]. apply gen_service; assumption.
   - apply gen_call. exact IH.
   - apply gen_par. exact IH.
   - apply gen_cond; assumption.
+  - apply gen_while; assumption.
 Qed.
 
 Theorem gen_block : forall body, frag_block body = true ->
-    forall ctx first last ns,
+    forall il ctx first last ns,
       okns ns -> first < List.length (ns_trans ns) -> last < List.length (ns_trans ns) ->
       let p := pos_of ns in
-      exists ns', pg_block ctx body first last ns = Ok (exits_b body p, ns') /\
+      exists ns', pg_block il ctx body first last ns = Ok (exits_b body p, ns') /\
                   Gen ns ns' first last (entries_b body p) (startcbs_b body p ctx) [xplace_b body p] /\
                   pos_of ns' = adv_b body p /\ okns ns' /\ wired_block (wired ns') ns' ctx [] body p.
 Proof.
-  intros body Hf ctx first last ns Hok H1 H2 p. unfold pg_block.
+  intros body Hf il ctx first last ns Hok H1 H2 p. unfold pg_block.
   apply gen_block_go; try assumption; [|reflexivity].
   apply Forall_forall. intros s _. apply gen_ok.
 Qed.
@@ -1406,6 +1594,32 @@ Section Copies.
            nret [sp; sf]
          end)%net.
   Proof. reflexivity. Qed.
+  Lemma unfold_stmt_S_while : forall f' tn path e body,
+      unfold_stmt tasks (S f') tn path (SWhile e body)
+      = rbind (ublock f' tn path 0 body) (fun xb => Ok (XWhile e xb)).
+  Proof. reflexivity. Qed.
+  Lemma generate_stmt_S_while : forall f' ctx tn path e body t1 t2 il,
+      generate_stmt tasks (S f') ctx tn path (SWhile e body) t1 t2 il
+      = (loop_p <~ create_place ;;
+         then_p <~ create_place ;;
+         else_p <~ create_place ;;
+         cp <~ create_transition ;;
+         cf <~ create_transition ;;
+         it <~ create_transition ;;
+         add_input loop_p cp ;;~
+         add_input then_p cp ;;~
+         add_input loop_p cf ;;~
+         add_input else_p cf ;;~
+         add_output loop_p it ;;~
+         ldone <~ create_place ;;
+         generate_statements tasks f' ctx tn path body cp it true ;;~
+         add_output loop_p t1 ;;~
+         add_input ldone t2 ;;~
+         add_callback t1 (CbWhile e then_p else_p ctx) ;;~
+         add_callback it (CbWhile e then_p else_p ctx) ;;~
+         add_output ldone cf ;;~
+         nret [cf])%net.
+  Proof. reflexivity. Qed.
   Lemma unfold_program_eq : forall f,
       unfold_program tasks f =
       match find_task production_task tasks with
@@ -1423,18 +1637,18 @@ Proof. intros A B [a| | |] f y H; try discriminate H. exists a. split; [reflexiv
 Lemma unfold_frag_shape : forall tasks f' tn path s x,
     unfold_stmt tasks (S f') tn path s = Ok x -> frag x = true ->
     (exists n ins o, s = SService n ins o) \/ (exists c, s = SCall c) \/ (exists cs, s = SParallel cs) \/
-    (exists e p fl, s = SCond e p fl).
+    (exists e p fl, s = SCond e p fl) \/ (exists e body, s = SWhile e body).
 Proof.
   intros tasks f' tn path s x H Hf. destruct s as [n ins o|c|cs|e body|par v lim body|e p fl].
   - left. eauto.
   - right. left. eauto.
   - right. right. left. eauto.
-  - exfalso. cbn [unfold_stmt] in H. apply rbind_ok_inv in H. destruct H as (b & _ & H). inversion H; subst. discriminate Hf.
+  - right. right. right. right. eauto.
   - exfalso. cbn [unfold_stmt] in H. destruct par.
     + destruct body as [|[ | | | | | ] [|]]; try discriminate H.
       apply rbind_ok_inv in H. destruct H as (b & _ & H). inversion H; subst. discriminate Hf.
     + apply rbind_ok_inv in H. destruct H as (b & _ & H). inversion H; subst. discriminate Hf.
-  - right. right. right. eauto.
+  - right. right. right. left. eauto.
 Qed.
 
 (* generator fuel that suffices for a component *)
@@ -1444,6 +1658,7 @@ Fixpoint need (s : xstmt) : nat :=
   | XCall _ _ _ body => 3 + list_max (map need body)
   | XParallel bs => 1 + list_max (map need bs)
   | XCond _ P F => 2 + Nat.max (list_max (map need P)) (list_max (map need F))
+  | XWhile _ B => 2 + list_max (map need B)
   | _ => 0
   end.
 Definition need_l (l : list xstmt) : nat := list_max (map need l).
@@ -1463,13 +1678,13 @@ Section WalkEq.
   Variable tasks : list task.
 
   Definition P_stmt (fu : nat) : Prop :=
-    forall tn path s x, unfold_stmt tasks fu tn path s = Ok x -> frag x = true ->
+    forall il tn path s x, unfold_stmt tasks fu tn path s = Ok x -> frag x = true ->
       forall g ctx t1 t2 ns, need x <= g ->
-        generate_stmt tasks g ctx tn path s t1 t2 false ns = pg_stmt ctx x t1 t2 ns.
+        generate_stmt tasks g ctx tn path s t1 t2 il ns = pg_stmt il ctx x t1 t2 ns.
   Definition P_call (fu : nat) : Prop :=
-    forall tn pth c x, udo_call tasks fu tn pth c = Ok x -> frag x = true ->
+    forall il tn pth c x, udo_call tasks fu tn pth c = Ok x -> frag x = true ->
       forall g ctx t1 t2 ns, need x <= S g ->
-        generate_task_call tasks g c (site_of tn pth) ctx t1 t2 false ns = pg_stmt ctx x t1 t2 ns.
+        generate_task_call tasks g c (site_of tn pth) ctx t1 t2 il ns = pg_stmt il ctx x t1 t2 ns.
 
   Lemma ucall_blk_length : forall fu tn ss i xs,
       ucall_blk tasks fu tn i ss = Ok xs -> List.length xs = List.length ss.
@@ -1481,14 +1696,14 @@ Section WalkEq.
   Qed.
 
   Lemma A_blk : forall fu, P_stmt fu ->
-      forall g a tn n first last ss i xs,
+      forall il g a tn n first last ss i xs,
         ucall_blk tasks fu tn i ss = Ok xs -> forallb frag xs = true -> need_l xs <= g ->
         i + List.length ss = n ->
         forall prev acc ns, (i = 0 -> prev = first) ->
-          gs_go tasks g a tn [] n first last false i ss prev acc ns
-          = pg_block_go pg_stmt a n last i xs prev acc ns.
+          gs_go tasks g a tn [] n first last il i ss prev acc ns
+          = pg_block_go (pg_stmt il) a n last i xs prev acc ns.
   Proof.
-    intros fu HP g a tn n first last. induction ss as [|s r IH]; intros i xs H Hf Hn Hlen prev acc ns Hprev;
+    intros fu HP il g a tn n first last. induction ss as [|s r IH]; intros i xs H Hf Hn Hlen prev acc ns Hprev;
       cbn [ucall_blk] in H.
     - inversion H; subst. reflexivity.
     - apply rbind_ok_inv in H. destruct H as (x & Hx & H). apply rbind_ok_inv in H. destruct H as (xs' & Hxs & H).
@@ -1497,8 +1712,8 @@ Section WalkEq.
       assert (Epr : (if Nat.ltb 1 n then prev else first) = prev).
       { destruct (Nat.ltb_spec 1 n); [reflexivity|]. cbn [List.length] in Hlen. symmetry. apply Hprev. lia. }
       cbv zeta. rewrite Epr. cbn [app].
-      unfold nbind. rewrite (HP tn [i] s x Hx Hfx g a prev cur s1) by lia.
-      destruct (pg_stmt a x prev cur s1) as [[ex s2]| | |]; try reflexivity.
+      unfold nbind. rewrite (HP il tn [i] s x Hx Hfx g a prev cur s1) by lia.
+      destruct (pg_stmt il a x prev cur s1) as [[ex s2]| | |]; try reflexivity.
       apply IH; try assumption; try lia. cbn [List.length] in Hlen. lia.
   Qed.
 
@@ -1512,14 +1727,14 @@ Section WalkEq.
   Qed.
 
   Lemma A_ublk : forall fu, P_stmt fu ->
-      forall g a tn pre n first last ss i xs,
+      forall il g a tn pre n first last ss i xs,
         ublock tasks fu tn pre i ss = Ok xs -> forallb frag xs = true -> need_l xs <= g ->
         i + List.length ss = n ->
         forall prev acc ns, (i = 0 -> prev = first) ->
-          gs_go tasks g a tn pre n first last false i ss prev acc ns
-          = pg_block_go pg_stmt a n last i xs prev acc ns.
+          gs_go tasks g a tn pre n first last il i ss prev acc ns
+          = pg_block_go (pg_stmt il) a n last i xs prev acc ns.
   Proof.
-    intros fu HP g a tn pre n first last. induction ss as [|s r IH]; intros i xs H Hf Hn Hlen prev acc ns Hprev;
+    intros fu HP il g a tn pre n first last. induction ss as [|s r IH]; intros i xs H Hf Hn Hlen prev acc ns Hprev;
       cbn [ublock] in H.
     - inversion H; subst. reflexivity.
     - apply rbind_ok_inv in H. destruct H as (x & Hx & H). apply rbind_ok_inv in H. destruct H as (xs' & Hxs & H).
@@ -1528,14 +1743,14 @@ Section WalkEq.
       assert (Epr : (if Nat.ltb 1 n then prev else first) = prev).
       { destruct (Nat.ltb_spec 1 n); [reflexivity|]. cbn [List.length] in Hlen. symmetry. apply Hprev. lia. }
       cbv zeta. rewrite Epr.
-      unfold nbind. rewrite (HP tn (pre ++ [i]) s x Hx Hfx g a prev cur s1) by lia.
-      destruct (pg_stmt a x prev cur s1) as [[ex s2]| | |]; try reflexivity.
+      unfold nbind. rewrite (HP il tn (pre ++ [i]) s x Hx Hfx g a prev cur s1) by lia.
+      destruct (pg_stmt il a x prev cur s1) as [[ex s2]| | |]; try reflexivity.
       apply IH; try assumption; try lia. cbn [List.length] in Hlen. lia.
   Qed.
 
   Lemma A_call : forall fu, P_stmt fu -> P_call fu.
   Proof.
-    intros fu HP tn pth c x H Hf g ctx t1 t2 ns Hg. unfold udo_call in H.
+    intros fu HP il tn pth c x H Hf g ctx t1 t2 ns Hg. unfold udo_call in H.
     destruct (find_task (c_name c) tasks) as [t|] eqn:Ft; [|discriminate H].
     apply rbind_ok_inv in H. destruct H as (body & Hb & H). inversion H; subst x. clear H.
     pose proof (frag_call _ _ _ _ Hf) as [_ Hfb].
@@ -1548,41 +1763,41 @@ Section WalkEq.
     assert (Hl : 0 + List.length (t_body t) = List.length body).
     { rewrite (ucall_blk_length _ _ _ _ _ Hb). reflexivity. }
     unfold nbind.
-    rewrite (A_blk fu HP g2 a (t_name t) (List.length body) t1 t2 (t_body t) 0 body Hb Hfa ltac:(lia) Hl t1 [] s3 (fun _ => eq_refl)).
+    rewrite (A_blk fu HP il g2 a (t_name t) (List.length body) t1 t2 (t_body t) 0 body Hb Hfa ltac:(lia) Hl t1 [] s3 (fun _ => eq_refl)).
     reflexivity.
   Qed.
 
   Lemma A_calls : forall fu, P_call fu ->
-      forall g ctx tn path t1 sync cs i xs,
+      forall il g ctx tn path t1 sync cs i xs,
         ucalls tasks fu tn path i cs = Ok xs -> frag_brs xs = true -> need_l xs <= S g ->
-        forall ns, gp_calls tasks g ctx tn path t1 sync false i cs ns = pg_calls pg_stmt ctx t1 sync xs ns.
+        forall ns, gp_calls tasks g ctx tn path t1 sync il i cs ns = pg_calls (pg_stmt il) ctx t1 sync xs ns.
   Proof.
-    intros fu HP g ctx tn path t1 sync. induction cs as [|c r IH]; intros i xs H Hf Hn ns; cbn [ucalls] in H.
+    intros fu HP il g ctx tn path t1 sync. induction cs as [|c r IH]; intros i xs H Hf Hn ns; cbn [ucalls] in H.
     - inversion H; subst. reflexivity.
     - apply rbind_ok_inv in H. destruct H as (x & Hx & H). apply rbind_ok_inv in H. destruct H as (xs' & Hxs & H).
       inversion H; subst xs. clear H. apply frag_brs_cons in Hf. destruct Hf as (_ & Hfx & Hfxs).
       rewrite need_l_cons in Hn. cbn [gp_calls pg_calls]. unfold nbind.
-      rewrite (HP tn (path ++ [i]) c x Hx Hfx g ctx t1 sync ns) by lia.
-      destruct (pg_stmt ctx x t1 sync ns) as [[ex s2]| | |]; try reflexivity.
+      rewrite (HP il tn (path ++ [i]) c x Hx Hfx g ctx t1 sync ns) by lia.
+      destruct (pg_stmt il ctx x t1 sync ns) as [[ex s2]| | |]; try reflexivity.
       apply IH; try assumption. lia.
   Qed.
 
   Theorem A_stmt : forall fu, P_stmt fu.
   Proof.
-    induction fu as [|fu IH]; [intros tn path s x H; discriminate H|].
+    induction fu as [|fu IH]; [intros il tn path s x H; discriminate H|].
     pose proof (A_call fu IH) as HC.
-    intros tn path s x H Hf g ctx t1 t2 ns Hg.
-    destruct (unfold_frag_shape _ _ _ _ _ _ H Hf) as [(n & ins & o & ->)|[(c & ->)|[(cs & ->)|(e & p & fl & ->)]]].
+    intros il tn path s x H Hf g ctx t1 t2 ns Hg.
+    destruct (unfold_frag_shape _ _ _ _ _ _ H Hf) as [(n & ins & o & ->)|[(c & ->)|[(cs & ->)|[(e & p & fl & ->)|(e & wb & ->)]]]].
     - rewrite unfold_stmt_S_service in H. inversion H; subst x. cbn [need] in Hg.
       destruct g as [|g']; [lia|]. rewrite generate_stmt_S_service. reflexivity.
     - rewrite unfold_stmt_S_call in H.
       assert (1 <= need x) by (destruct x; try discriminate Hf; cbn [need]; lia).
-      destruct g as [|g']; [lia|]. rewrite generate_stmt_S_call. apply (HC tn path c x H Hf). lia.
+      destruct g as [|g']; [lia|]. rewrite generate_stmt_S_call. apply (HC il tn path c x H Hf). lia.
     - rewrite unfold_stmt_S_par in H. apply rbind_ok_inv in H. destruct H as (bs & Hbs & H). inversion H; subst x. clear H.
       cbn [need] in Hg. fold (need_l bs) in Hg. destruct g as [|g']; [lia|].
       rewrite generate_stmt_S_par. cbn [pg_stmt].
       apply nbind_ext. intros sync s1. apply nbind_ext. intros pfin s2.
-      unfold nbind. rewrite (A_calls fu HC g' ctx tn path t1 sync cs 0 bs Hbs (proj2 (frag_par _ Hf)) ltac:(lia)).
+      unfold nbind. rewrite (A_calls fu HC il g' ctx tn path t1 sync cs 0 bs Hbs (proj2 (frag_par _ Hf)) ltac:(lia)).
       reflexivity.
     - rewrite unfold_stmt_S_cond in H. apply rbind_ok_inv in H. destruct H as (xp & Hp & H).
       apply rbind_ok_inv in H. destruct H as (xf & Hfl & H). inversion H; subst x. clear H.
@@ -1598,7 +1813,7 @@ Section WalkEq.
       rewrite generate_statements_S. rewrite <- (ublock_length _ _ _ _ _ _ Hp).
       assert (HlP : 0 + List.length p = List.length xp) by (rewrite (ublock_length _ _ _ _ _ _ Hp); reflexivity).
       apply nbind_cong.
-      { apply (A_ublk fu IH g2 ctx tn (path ++ [0]) (List.length xp) fp sp p 0 xp Hp HfaP ltac:(lia) HlP fp [] s12 (fun _ => eq_refl)). }
+      { apply (A_ublk fu IH il g2 ctx tn (path ++ [0]) (List.length xp) fp sp p 0 xp Hp HfaP ltac:(lia) HlP fp [] s12 (fun _ => eq_refl)). }
       intros _ s13.
       apply nbind_ext; intros _ s14. apply nbind_ext; intros _ s15. apply nbind_ext; intros _ s16.
       destruct fl as [|f0 fr].
@@ -1608,7 +1823,21 @@ Section WalkEq.
         rewrite generate_statements_S. rewrite <- (ublock_length _ _ _ _ _ _ Hfl).
         assert (HlF : 0 + List.length (f0 :: fr) = List.length (xf0 :: xfr)) by (rewrite (ublock_length _ _ _ _ _ _ Hfl); reflexivity).
         apply nbind_cong; [|intros; reflexivity].
-        apply (A_ublk fu IH g2 ctx tn (path ++ [1]) (List.length (xf0 :: xfr)) ff sf (f0 :: fr) 0 (xf0 :: xfr) Hfl HfaF ltac:(lia) HlF ff [] s17 (fun _ => eq_refl)).
+        apply (A_ublk fu IH il g2 ctx tn (path ++ [1]) (List.length (xf0 :: xfr)) ff sf (f0 :: fr) 0 (xf0 :: xfr) Hfl HfaF ltac:(lia) HlF ff [] s17 (fun _ => eq_refl)).
+    - rewrite unfold_stmt_S_while in H. apply rbind_ok_inv in H. destruct H as (xb & Hb & H). inversion H; subst x. clear H.
+      pose proof (frag_while _ _ Hf) as HfB.
+      assert (HfaB : forallb frag xb = true) by (destruct xb; [discriminate HfB|exact HfB]).
+      cbn [need] in Hg. fold (need_l xb) in Hg.
+      destruct g as [|[|g2]]; try lia.
+      rewrite generate_stmt_S_while. cbn [pg_stmt].
+      apply nbind_ext; intros loop_p s1. apply nbind_ext; intros then_p s2. apply nbind_ext; intros else_p s3.
+      apply nbind_ext; intros cp s4. apply nbind_ext; intros cf s5. apply nbind_ext; intros it s6.
+      apply nbind_ext; intros _ s7. apply nbind_ext; intros _ s8. apply nbind_ext; intros _ s9. apply nbind_ext; intros _ s10.
+      apply nbind_ext; intros _ s11. apply nbind_ext; intros ldone s12.
+      rewrite generate_statements_S. rewrite <- (ublock_length _ _ _ _ _ _ Hb).
+      assert (HlB : 0 + List.length wb = List.length xb) by (rewrite (ublock_length _ _ _ _ _ _ Hb); reflexivity).
+      apply nbind_cong; [|intros; reflexivity].
+      apply (A_ublk fu IH true g2 ctx tn path (List.length xb) cp it wb 0 xb Hb HfaB ltac:(lia) HlB cp [] s12 (fun _ => eq_refl)).
   Qed.
 End WalkEq.
 
@@ -1723,14 +1952,14 @@ Proof.
   assert (Hfa : forallb frag body = true) by (destruct body; [discriminate Hf|exact Hf]).
   assert (Hl : 0 + List.length (t_body t) = List.length body).
   { rewrite (ucall_blk_length _ _ _ _ _ _ Hu). reflexivity. }
-  destruct (gen_block body Hf 0 0 1 ns_pre Okpre ltac:(lia) ltac:(lia)) as (ns2 & E2 & G2 & P2 & Ok2 & W2).
+  destruct (gen_block body Hf false 0 0 1 ns_pre Okpre ltac:(lia) ltac:(lia)) as (ns2 & E2 & G2 & P2 & Ok2 & W2).
   rewrite Ppre in E2, G2, P2, W2.
   unfold net_init. rewrite (generate_petri_net_eq tasks 200 t Ft).
   change 200 with (S 199) at 1. rewrite generate_statements_S.
   rewrite <- (ucall_blk_length _ _ _ _ _ _ Hu).
-  rewrite (A_blk tasks fu (A_stmt tasks fu) 199 0 production_task (List.length body) 0 1 (t_body t) 0 body Hu Hfa
+  rewrite (A_blk tasks fu (A_stmt tasks fu) false 199 0 production_task (List.length body) 0 1 (t_body t) 0 body Hu Hfa
                  ltac:(lia) Hl 0 [] ns_pre (fun _ => eq_refl)).
-  fold (pg_block 0 body 0 1). rewrite E2.
+  fold (pg_block false 0 body 0 1). rewrite E2.
   set (N := op_sf 0 1 (op_cb 1 (CbTF 0) (op_out 1 1 ns2))).
   exists N. split; [reflexivity|].
   unfold Gen in G2.
